@@ -74,7 +74,7 @@ class World:
         self.cfg = cfg
         self.stats = collections.Counter()
         self.log = simlog.install()
-        self.net = simnet.SimNet({"http://h/a.css": {"text": "i { top: 0 }", "enc": None}}, self.stats)
+        self.net = simnet.SimNet({"http://h/a.css": {"text": "i { top: 0 }", "enc": None}, "http://h/bad.css": {"text": "j { top: ( } k {", "enc": None}, "http://h/b.css": {"text": "@variables { v: 1 } j { top: var(v) }", "enc": None}}, self.stats)
         cu.log.raiseExceptions = False
         self.sheet = cu.CSSParser(fetcher=self.net.fetch).parseString(cfg["sheet"], href="http://h/root.css")
         cu.log.raiseExceptions = True
@@ -142,6 +142,17 @@ class World:
             k, v = lib.call(obj.namespaces.__setitem__, a[0], a[1])
         elif m == "ns_del":
             k, v = lib.call(obj.namespaces.__delitem__, a[0])
+        elif m == "insert_rule_list":
+            # a list of rule objects (taken from another, throw-away sheet) is inserted as a whole
+            mode = self.cu.log.raiseExceptions
+            self.cu.log.raiseExceptions = False
+            try:
+                src = self.cu.parseString(a[0]).cssRules
+            finally:
+                self.cu.log.raiseExceptions = mode
+            if not hasattr(obj, "insertRule"):
+                return "nomethod"
+            k, v = lib.call(obj.insertRule, src, a[1] % (len(obj.cssRules) + 2))
         elif m == "insert_ns_object":
             rule = self.cu.css.CSSNamespaceRule(namespaceURI=a[1], prefix=a[0])
             k, v = lib.call(obj.insertRule, rule, a[2] % (len(obj.cssRules) + 2))
@@ -199,6 +210,11 @@ class World:
             "CSSStyleSheet": lambda: cu.css.CSSStyleSheet(readonly=True),
             "PropertyValue": lambda: cu.css.PropertyValue("1px red", readonly=True),
             "CSSVariablesDeclaration": lambda: cu.css.CSSVariablesDeclaration("x: 1", readonly=True),
+            "MarginRule": lambda: cu.css.MarginRule("@top-left", "color: red", readonly=True),
+            "Value": lambda: cu.css.Value("red", readonly=True),
+            "ColorValue": lambda: cu.css.ColorValue("#fff", readonly=True),
+            "DimensionValue": lambda: cu.css.DimensionValue("1px", readonly=True),
+            "URIValue": lambda: cu.css.URIValue("url(x)", readonly=True),
         }[op["cls"]]
         k, obj = lib.call(make)
         if k != "ok":
@@ -287,15 +303,20 @@ def gen_op(r, w, i):
     if i >= cfg["n_ops"]:
         return None
     if cfg["readonly"] and r.random() < 0.8:
-        cls = r.choice(["CSSStyleDeclaration", "MediaList", "Selector", "SelectorList", "CSSStyleRule", "CSSMediaRule", "CSSImportRule", "CSSNamespaceRule", "CSSPageRule", "CSSFontFaceRule", "CSSCharsetRule", "CSSComment", "CSSUnknownRule", "CSSStyleSheet", "PropertyValue", "CSSVariablesDeclaration"])
+        cls = r.choice(["MarginRule", "Value", "ColorValue", "DimensionValue", "URIValue", "CSSStyleDeclaration", "MediaList", "Selector", "SelectorList", "CSSStyleRule", "CSSMediaRule", "CSSImportRule", "CSSNamespaceRule", "CSSPageRule", "CSSFontFaceRule", "CSSCharsetRule", "CSSComment", "CSSUnknownRule", "CSSStyleSheet", "PropertyValue", "CSSVariablesDeclaration"])
         muts = {
             "CSSStyleDeclaration": [("set:cssText", ["top: 0"]), ("setProperty", ["top", "0"]), ("removeProperty", ["color"]), ("set:color", ["blue"])],
-            "MediaList": [("set:mediaText", ["screen"]), ("appendMedium", ["screen"]), ("deleteMedium", ["print"])],
+            "MediaList": [("set:mediaText", ["screen"]), ("appendMedium", ["screen"]), ("deleteMedium", ["print"]), ("__delitem__", [0])],
+            "MarginRule": [("set:cssText", ["@top-right { left: 0 }"]), ("set:margin", ["@top-right"]), ("set:style", ["left: 0"])],
+            "Value": [("set:cssText", ["blue"]), ("set:value", ["blue"])],
+            "ColorValue": [("set:cssText", ["#000"])],
+            "DimensionValue": [("set:cssText", ["2px"])],
+            "URIValue": [("set:cssText", ["url(y)"]), ("set:uri", ["y"])],
             "Selector": [("set:selectorText", ["b"])],
-            "SelectorList": [("set:selectorText", ["b"]), ("appendSelector", ["c"])],
+            "SelectorList": [("set:selectorText", ["b"]), ("appendSelector", ["c"]), ("__delitem__", [0])],
             "CSSStyleRule": [("set:cssText", ["b { top: 0 }"]), ("set:selectorText", ["b"]), ("set:style", ["top: 0"])],
             "CSSMediaRule": [("set:cssText", ["@media tv { a { top: 0 } }"]), ("insertRule", ["a { top: 0 }"]), ("add", ["a { top: 0 }"]), ("set:name", ["n"])],
-            "CSSImportRule": [("set:cssText", ["@import 'y.css';"]), ("set:name", ["n"]), ("set:media", ["tv"])],
+            "CSSImportRule": [("set:cssText", ["@import 'y.css';"]), ("set:name", ["n"]), ("set:media", ["tv"]), ("set:href", ["y.css"])],
             "CSSNamespaceRule": [("set:cssText", ["@namespace q 'v';"]), ("set:prefix", ["q"]), ("set:namespaceURI", ["v"])],
             "CSSPageRule": [("set:cssText", ["@page :left { margin: 1px }"]), ("set:selectorText", [":left"]), ("set:style", ["margin: 1px"])],
             "CSSFontFaceRule": [("set:cssText", ["@font-face { font-family: y }"]), ("set:style", ["font-family: y"])],
@@ -310,7 +331,7 @@ def gen_op(r, w, i):
         return {"op": "readonly", "cls": cls, "m": m, "a": a}
     abort = r.random() < cfg["abort_rate"]
     choice = r.choice(
-        ["sheet.cssText", "sheet.insertRule", "sheet.add", "sheet.deleteRule", "sheet.encoding", "sheet.ns_set", "sheet.ns_del", "sheet.ns_object", "rule.cssText", "rule.cssText", "style.cssText", "style.setProperty", "property", "value.cssText", "selectorlist", "selector.selectorText", "stylerule.selectorText", "media.mediaText", "media.append", "media.delete", "mediaquery", "mediarule.insertRule", "mediarule.deleteRule", "mediarule.add", "import", "namespace", "page", "charset", "variables"]
+        ["sheet.cssText", "sheet.insertRule", "sheet.add", "sheet.deleteRule", "sheet.encoding", "sheet.ns_set", "sheet.ns_del", "sheet.ns_object", "rule.cssText", "rule.cssText", "style.cssText", "style.setProperty", "property", "value.cssText", "selectorlist", "selector.selectorText", "stylerule.selectorText", "media.mediaText", "media.append", "media.delete", "mediaquery", "mediarule.insertRule", "mediarule.deleteRule", "mediarule.add", "import", "import", "namespace", "page", "charset", "variables", "margin", "rulelist"]
     )
     i_, j_ = r.randrange(0, 8), r.randrange(0, 6)
     if choice == "sheet.cssText":
@@ -364,7 +385,7 @@ def gen_op(r, w, i):
         elif m == "set:name":
             a, where = (r.choice(["1a", "", "a b", "a:", "("]) if abort else r.choice(["top", "COLOR", "x-y"])), "immediately" if abort else None
         elif m == "set:priority":
-            a, where = (r.choice(["importan", "!", "1", "a b", "important important"]) if abort else r.choice(["", "important", "!important"])), "immediately" if abort else None
+            a, where = (r.choice(["importan", "!", "1", "a b", "important important", "!foo", "! ie", "!importan"]) if abort else r.choice(["", "important", "!important"])), "immediately" if abort else None
         else:
             a, where = (r.choice(["1;2", "(", "red }", "", "a: b"]) if abort else r.choice(["red", "1px", "url(x)"])), "immediately" if abort else None
         return {"op": "mut", "t": "property", "kind": r.choice(["STYLE_RULE", "PAGE_RULE"]), "i": i_, "j": j_, "m": m, "a": [a], "abort": where}
@@ -412,7 +433,7 @@ def gen_op(r, w, i):
         elif m == "set:name":
             a = r.choice([1, "n"]) if abort else r.choice(["n", "", None])
         else:
-            a = r.choice(["a.css", "zz.css"])
+            a = r.choice(["a.css", "zz.css", "bad.css", "b.css", "bad.css"])  # bad.css: its content raises in raise mode
         return {"op": "mut", "t": "rule", "kind": "IMPORT_RULE", "i": i_, "m": m, "a": [a], "abort": "after_accepted_part" if abort else None}
     if choice == "namespace":
         m = r.choice(["set:cssText", "set:prefix", "set:namespaceURI"])
@@ -432,6 +453,18 @@ def gen_op(r, w, i):
             if m == "insertRule":
                 a.append(r.randrange(0, 3))
         return {"op": "mut", "t": "rule", "kind": "PAGE_RULE", "i": i_, "m": m, "a": a, "abort": "immediately" if abort else None}
+    if choice == "margin":
+        m = r.choice(["set:cssText", "set:cssText", "set:margin"])
+        if m == "set:cssText":
+            a = r.choice(["@top-right { color: blue; $ }", "@top-left { content: ( }", "@bogus-box { left: 0 }", "@bottom-center { left: 1;2 }", "a { }"]) if abort else r.choice(["@top-right { color: blue }", "@bottom-center { content: 'x'; left: 0 }"])
+        else:
+            a = r.choice(["@bogus", "top-left", ""]) if abort else r.choice(["@top-right", "@bottom-center"])
+        return {"op": "mut", "t": "rule", "kind": "MARGIN_RULE", "i": i_, "m": m, "a": [a], "abort": "after_accepted_part" if abort else None}
+    if choice == "rulelist":
+        good = [G.rule(r, r.choice(["style", "comment", "unknown", "page"])) for _ in range(r.randrange(1, 4))]
+        if abort:
+            good.insert(r.randrange(1, len(good) + 1), r.choice(['@namespace zz "late";', '@charset "utf-8";', '@import "late.css";']))
+        return {"op": "mut", "t": r.choice(["sheet", "sheet", "rule"]), "kind": "MEDIA_RULE", "i": i_, "m": "insert_rule_list", "a": [" ".join(good), r.randrange(0, 9)], "abort": "after_accepted_part" if abort else None}
     if choice == "charset":
         m = r.choice(["set:cssText", "set:encoding"])
         a = (r.choice(['@charset "x-bogus";', "@charset utf-8;", '@charset "utf-8"', "@import 'x';"]) if abort else '@charset "ascii";') if m == "set:cssText" else (r.choice(["x-bogus", "", "a b"]) if abort else "ascii")
